@@ -364,6 +364,10 @@ func runCorpus(vd, repo, id string) []map[string]any {
 					}
 				}
 			}
+			if strings.Contains(string(out), "kind=unanalysable") {
+				res["outcome"] = "skipped: variant no longer builds on this tree"
+				return
+			}
 			fired := len(rules) > 0
 			res["fired_rules"] = rules
 			switch {
